@@ -411,6 +411,12 @@ func verifRandomDoc(rng *rand.Rand, depth int) []verifNode {
 func verifPostObject(r verifReal, attachments int) (object.Object, []verifMark) {
 	o := object.Object{"type": "Note", "content": r.text, "mediaType": r.media, "published": "2024-01-02T03:04:05Z"}
 	expect := append([]verifMark{}, r.expect...)
+	if attachments > 0 && (len(r.text)+attachments)%7 == 3 {
+		/* a list that is malformed at a later entry cannot be loaded: none of it is numbered, none of it opens */
+		t := fmt.Sprintf("https://t.example/att%d-hidden", len(r.text))
+		o["attachment"] = []any{map[string]any{"type": "Document", "url": t, "name": "A1"}, "not an attachment", map[string]any{"type": "Emoji", "name": ":x:"}}
+		return o, expect
+	}
 	if attachments > 0 {
 		list := []any{}
 		for i := 0; i < attachments; i++ {
